@@ -142,9 +142,9 @@ let int_line (s : st) =
   let vols = String.concat ";" (List.map (fun (v : vol) -> Printf.sprintf "%d:%d:%s:%s" (int_of_n v.v_id) (int_of_n v.v_idx) (opt_str v.v_free) (opt_str v.v_next_free)) s.s_vols) in
   let dirs = String.concat ";" (List.map (fun (d : dirinfo) -> Printf.sprintf "%d:%d:%d" (int_of_n d.d_id) (int_of_n d.d_vol) (int_of_n d.d_cluster)) s.s_dirs) in
   let files = String.concat ";" (List.map (fun (f : fileinfo) ->
-      Printf.sprintf "%d:%d:%d:%d:%d:%s:%d:%d:%d:%d:%d:%d:%s" (int_of_n f.f_id) (int_of_n f.f_vol) (int_of_n f.f_cur_off) (int_of_n f.f_cur_cluster)
+      Printf.sprintf "%d:%d:%d:%d:%d:%s:%d:%d:%d:%d:%d:%s" (int_of_n f.f_id) (int_of_n f.f_vol) (int_of_n f.f_cur_off) (int_of_n f.f_cur_cluster)
         (int_of_n f.f_offset) (mode_str f.f_mode) (int_of_n f.f_entry.e_size) (int_of_n f.f_entry.e_cluster) (if f.f_dirty then 1 else 0)
-        (int_of_n f.f_entry.e_attr) (int_of_n f.f_entry.e_block) (int_of_n f.f_entry.e_offset) (ts_str f.f_entry.e_mtime)) s.s_files) in
+        (int_of_n f.f_entry.e_block) (int_of_n f.f_entry.e_offset) (ts_str f.f_entry.e_mtime)) s.s_files) in
   Printf.sprintf "id=%d vols=[%s] dirs=[%s] files=[%s] tag=%s" (int_of_n s.s_next_id) vols dirs files (opt_str s.s_tag)
 
 let print_dev n (calls : devcall list) =
